@@ -169,7 +169,7 @@ var reserved = map[string]bool{
 	"if": true, "then": true, "else": true, "return": true, "forall": true, "exists": true, "Type": true, "Set": true, "Prop": true,
 	"Some": true, "None": true, "true": true, "false": true, "tt": true, "unit": true, "bool": true, "nat": true, "list": true,
 	"option": true, "byte": true, "bytes": true, "Z": true, "N": true, "S": true, "O": true, "error": true, "member": true,
-	"tr_": true, "k_": true, "st_": true, "brk_": true, "ret_": true, "rv_": true,
+	"tr_": true, "k_": true, "st_": true, "brk_": true, "ret_": true, "rv_": true, "heap_": true,
 }
 
 func (x *tr) ident(name string) string {
@@ -455,9 +455,24 @@ func (x *tr) sliceVar(e ast.Expr) (string, bool) {
 
 // copyCall: copy(dst, src) where dst is a tracked slice V or V[a:]: V is rebound to its new contents
 // (a let hoisted in front of the statement, in evaluation order); the value is the count
+// letPair: bind (fresh, v) := term in front of the statement being assembled; the value is the fresh name
+func (x *tr) letPair(term, v string) string {
+	x.npend++
+	nm := fmt.Sprintf("r%d_", x.npend)
+	x.pending = append(x.pending, pend{name: "(" + nm + ", " + v + ")", term: term, let: true, names: []string{nm, v}})
+	x.bound[nm]++
+	x.bound[v]++
+	return nm
+}
+
 func (x *tr) copyCall(c *ast.CallExpr) string {
 	if len(c.Args) != 2 {
 		x.bad(c, "copy form")
+	}
+	if x.kindOf(c.Args[0]) == "hslice" && x.kindOf(c.Args[1]) == "hslice" {
+		// slices of heap cells: the copy writes into the array of dst (heap_ is rebound)
+		dst, src := x.expr(c.Args[0]), x.expr(c.Args[1])
+		return x.letPair(fmt.Sprintf("h_copy %s %s (h_read %s %s)", x.use("heap_"), paren(dst), x.use("heap_"), paren(src)), "heap_")
 	}
 	var v, from string
 	switch d := c.Args[0].(type) {
@@ -747,7 +762,32 @@ func (x *tr) expr(e ast.Expr) string {
 			}
 		}
 		return x.use(sanitize(src(z)))
+	case *ast.UnaryExpr:
+		if cl, ok := z.X.(*ast.CompositeLit); ok && z.Op == token.AND && x.t.strict {
+			return x.expr(cl) // &T{..}: the value (a fresh object; nothing else refers to it)
+		}
+		switch z.Op {
+		case token.NOT:
+			return "(negb " + x.expr(z.X) + ")"
+		case token.SUB:
+			return "(- " + x.expr(z.X) + ")"
+		}
 	case *ast.CompositeLit:
+		if _, isStruct := x.p.TypesInfo.TypeOf(z).Underlying().(*types.Struct); x.t.strict && isStruct && x.kindOf(z) != "?" {
+			// T{a, b}: positional struct literal of a type the target maps to a tuple
+			var els []string
+			for _, e := range z.Elts {
+				if _, kv := e.(*ast.KeyValueExpr); kv {
+					x.bad(z, "keyed struct literal")
+				}
+				els = append(els, x.expr(e))
+			}
+			st := x.p.TypesInfo.TypeOf(z).Underlying().(*types.Struct)
+			if len(els) != st.NumFields() {
+				x.bad(z, "struct literal form")
+			}
+			return tuple(els)
+		}
 		if x.t.strict {
 			if _, isSlice := x.p.TypesInfo.TypeOf(z).Underlying().(*types.Slice); isSlice && strings.HasPrefix(x.kindOf(z), "list ") {
 				var els []string
@@ -763,13 +803,6 @@ func (x *tr) expr(e ast.Expr) string {
 	case *ast.StarExpr:
 		if nm, ok := x.deref(z); ok {
 			return x.use(nm)
-		}
-	case *ast.UnaryExpr:
-		switch z.Op {
-		case token.NOT:
-			return "(negb " + x.expr(z.X) + ")"
-		case token.SUB:
-			return "(- " + x.expr(z.X) + ")"
 		}
 	case *ast.BinaryExpr:
 		if src(z.Y) == "nil" && (z.Op == token.EQL || z.Op == token.NEQ) {
@@ -972,6 +1005,11 @@ func (x *tr) expr(e ast.Expr) string {
 					return x.partial("str_repeat " + paren(x.expr(z.Args[0])) + " " + paren(x.expr(z.Args[1])))
 				}
 			case "append":
+				if x.kindOf(z.Args[0]) == "hslice" && len(z.Args) == 2 && z.Ellipsis == token.NoPos {
+					// on heap cells append writes into the spare capacity of the SAME array when there is some
+					a, e := x.expr(z.Args[0]), x.expr(z.Args[1])
+					return x.letPair(fmt.Sprintf("h_append %s %s %s %s", x.use("f_growcap"), x.use("heap_"), paren(a), paren(e)), "heap_")
+				}
 				// append(a, b...) / append(a, x, y): the value; the translation has no aliasing to lose
 				if k := x.kindOf(z.Args[0]); k == "bytes" && len(z.Args) >= 2 {
 					a := x.expr(z.Args[0])
@@ -1013,6 +1051,10 @@ func (x *tr) expr(e ast.Expr) string {
 					return "(to_lower " + x.expr(z.Args[0]) + ")"
 				}
 			case "make":
+				if x.kindOf(z) == "hslice" && len(z.Args) == 2 && x.kindOf(z.Args[1]) == "Z" {
+					r := x.partial(fmt.Sprintf("h_make %s %s %s", x.use("heap_"), paren(x.expr(z.Args[1])), x.use("h_zero")))
+					return x.letPair(r, "heap_")
+				}
 				if _, isMap := x.p.TypesInfo.TypeOf(z).Underlying().(*types.Map); isMap && len(z.Args) == 1 {
 					if k := x.kindOf(z); strings.HasPrefix(k, "map ") {
 						return "(Some (@nil (Z * " + paren(k[4:]) + ")))" // a map value is never nil again; only a field can take it
@@ -1023,6 +1065,9 @@ func (x *tr) expr(e ast.Expr) string {
 			case "copy":
 				return x.copyCall(z)
 			case "len", "cap":
+				if x.kindOf(z.Args[0]) == "hslice" && key == "len" {
+					return "(h_len " + x.expr(z.Args[0]) + ")"
+				}
 				if x.kindOf(z.Args[0]) == "gslice" {
 					return "(sl_" + key + " " + x.expr(z.Args[0]) + ")"
 				}
@@ -1795,6 +1840,10 @@ func (x *tr) seq(stmts []ast.Stmt, k func() string) string {
 					return x.effectCall(c, cs, nil, z, tail)
 				}
 				switch key {
+				case "copy":
+					mark := len(x.pending)
+					x.expr(c) // the count is dropped; the effect is the rebinding hoisted in front of the rest
+					return x.hoistStmt(mark, tail)
 				case "panic":
 					if x.t.panicFmt != "" && len(c.Args) == 1 && len(x.panics) == 0 && x.optLoop == 0 {
 						mark := len(x.pending)
@@ -2057,6 +2106,12 @@ func (x *tr) assignStrict(z *ast.AssignStmt, tail func() string) string {
 					vals = append(vals, x.partial(fmt.Sprintf("map2_set %s %s %s %s", nm, paren(x.expr(inner.Index)), paren(x.expr(ie.Index)), paren(x.expr(z.Rhs[i])))))
 					continue
 				}
+			}
+			// v[i] = x on a slice of heap cells
+			if x.kindOf(ie.X) == "hslice" && x.kindOf(ie.Index) == "Z" {
+				names = append(names, "heap_")
+				vals = append(vals, x.partial(fmt.Sprintf("h_set %s %s %s %s", x.use("heap_"), paren(x.expr(ie.X)), paren(x.expr(ie.Index)), paren(x.expr(z.Rhs[i])))))
+				continue
 			}
 			// v[i] = c on a tracked byte slice
 			if v, ok := x.sliceVar(ie.X); ok && x.kindOf(ie.X) == "gslice" && x.kindOf(ie.Index) == "Z" && x.kindOf(z.Rhs[i]) == "Z" {
